@@ -317,12 +317,39 @@ var c03FloatTexts = []string{"1.5", "-0.25", "1e3", "abc", "1e400", "0x10", "1.5
 var c03FloatVals = []float64{1.5, -0.25, 1000, 0, 0, 0, 0, 0, 0}
 var c03FloatOK64 = []bool{true, true, true, false, false, false, false, true, false}
 
+// c03Product: explore the whole declaration lattice (with texts capped at
+// prodlen bytes) instead of the two slices.
+var c03Product bool
+
+// VerifC03ScalarProduct / VerifC03ArrayProduct: the full product of the
+// declaration lattice with short texts (thorough tier only).
+func VerifC03ScalarProduct() {
+	if zv.Param("skip", 0) == 1 {
+		return
+	}
+	c03Product = true
+	c03Scalar()
+}
+
+func VerifC03ArrayProduct() {
+	if zv.Param("skip", 0) == 1 {
+		return
+	}
+	c03Product = true
+	c03Array()
+}
+
 // VerifC03Scalar: one scalar parameter declaration, one request.
 func VerifC03Scalar() {
+	c03Product = false
+	c03Scalar()
+}
+
+func c03Scalar() {
 	// The quick tier explores two slices of the declaration lattice (every
 	// kind at one location; every location for two kinds); the thorough tier
 	// (full=1) explores the whole product.
-	full := zv.Param("full", 0) == 1
+	full := zv.Param("full", 0) == 1 || c03Product
 	slice := 0
 	if !full {
 		slice = zv.Choose("slice", 2)
@@ -384,6 +411,9 @@ func VerifC03Scalar() {
 			n := c03TextLen(ki)
 			if !full && slice == 1 && n > 2 {
 				n = 2
+			}
+			if pl := zv.Param("prodlen", 3); c03Product && n > pl {
+				n = pl
 			}
 			text = zv.String("text", n)
 		}
@@ -586,9 +616,14 @@ func c03Split(s string, sep byte) []string {
 
 // VerifC03Array: one array parameter declaration, one request.
 func VerifC03Array() {
+	c03Product = false
+	c03Array()
+}
+
+func c03Array() {
 	// quick tier: two slices (every format at the path/query location; every
 	// location for csv and multi with string items); thorough (full=1): product.
-	full := zv.Param("full", 0) == 1
+	full := zv.Param("full", 0) == 1 || c03Product
 	slice := 0
 	if !full {
 		slice = zv.Choose("slice", 2)
@@ -648,6 +683,9 @@ func VerifC03Array() {
 		n := zv.Param("lenarr", 4)
 		if !full && slice == 1 && n > 2 {
 			n = 2
+		}
+		if pl := zv.Param("prodlen", 2); c03Product && n > pl {
+			n = pl
 		}
 		text = zv.String("text", n)
 	}
